@@ -162,7 +162,10 @@ def judge(sub, pos, kwargs, env=None):
         viol("keyword_to_flag_count_mismatch", key, f"{len(active)} active keywords but {seen_flags} flags in {argv[1:]}", case)
     # (2) result equals the independently built command line
     iargv, istdin = independent_argv(sub, pos, kwargs)
-    p = _real_run(iargv, input=istdin, capture_output=True, text=True, check=False, stdin=None if istdin is not None else subprocess.DEVNULL)
+    # (bytes in, bytes out: a text-mode pipe would translate line endings on the way, exactly as the wrapper under test might)
+    p = _real_run(iargv, input=istdin.encode("utf-8") if istdin is not None else None, capture_output=True, check=False, stdin=None if istdin is not None else subprocess.DEVNULL)
+    p.stdout = p.stdout.decode("utf-8", errors="replace")
+    p.stderr = p.stderr.decode("utf-8", errors="replace")
     with lock:
         counts["independent_runs"] += 1
     if p.returncode != 0:
@@ -205,6 +208,8 @@ def main():
                 import string
                 base = str(vals[p.name][0]) or "x"
                 extras += [f"{base}{ch}{base}" for ch in string.punctuation + " \t\n"] + ["-x", "--help", "-", "--"]
+                # the other line-break and separator characters (a text-mode pipe rewrites CR and CR LF; str.splitlines knows a dozen more)
+                extras += [f"{base}{ch}{base}" for ch in ["\r", "\r\n", "\x0b", "\x0c", "\x1c", "\x85", "\u2028", "\u2029", "\ufeff"]]
             for v in list(vals[p.name]) + extras:
                 kw = {p.name: v}
                 if p.name == "stdin":
